@@ -127,6 +127,20 @@ m("c18-pem-expect", "src/common/tls.rs", "        .ok_or_else(|| err_msg(\"fail 
 m("c18-lb-verify-index", "src/connectors/loadbalance.rs", "        ensure!(!self.connectors.is_empty(), \"connectors must not be empty\");", "        let _first = &self.connectors[0];", ["C18"])
 m("c18-tuple-index-panic", "milu/src/script/stdlib.rs", '                if *index < 0 || *index as usize >= t.len() {\n                    bail!("tuple index out of range: {}", index)\n                }\n                Ok(t.remove(*index as usize))', '                Ok(t.remove(*index as usize))', ["C18"])
 
+# ---- C07 (in-process)
+m("c07-none-preferred", "src/common/socks.rs", "        if methods.contains(&SOCKS_AUTH_NONE) && !self.required {", "        if methods.contains(&SOCKS_AUTH_NONE) {", ["C07"])
+m("c07-cache-key-user-only", "src/common/auth.rs", "        let data = self.data.lock().await;\n        data.get(user).cloned()", "        let data = self.data.lock().await;\n        data.iter().find(|(k, _)| k.0 == user.0).map(|(_, v)| *v)", ["C07"])
+m("c07-skip-check", "src/listeners/socks.rs", "        if !self.auth.check(&request.auth).await {", "        if false && !self.auth.check(&request.auth).await {", ["C07"])
+m("c07-cache-never-expires", "src/common/auth.rs", "            tokio::time::sleep(Duration::from_secs(timeout)).await;", "            tokio::time::sleep(Duration::from_secs(timeout * 3600)).await;", ["C07"])
+m("c07-password-prefix", "src/common/auth.rs", "                .any(|e| e.username == user.0 && e.password == user.1)", "                .any(|e| e.username == user.0 && e.password.starts_with(&user.1))", ["C07"])
+m("c07-username-case", "src/common/auth.rs", "                .any(|e| e.username == user.0 && e.password == user.1)", "                .any(|e| e.username.eq_ignore_ascii_case(&user.0) && e.password == user.1)", ["C07"])
+
+m("c07-quic-no-client-auth", "src/common/quic.rs", "        .with_client_cert_verifier(tls.client_auth()?)", "        .with_no_client_auth()", ["C07"])
+m("c07-required-is-optional", "src/common/tls.rs", "        let ret = if self.required {\n            AllowAnyAuthenticatedClient::new(self.root_store()?)", "        let ret = if self.required && false {\n            AllowAnyAuthenticatedClient::new(self.root_store()?)", ["C07"])
+m("c07-always-insecure", "src/common/tls.rs", "        let config = if self.insecure {", "        let config = if self.insecure || self.ca.is_none() {", ["C07"])
+m("c07-quic-insecure-default", "src/common/quic.rs", "    if tls.insecure {\n        client_crypto", "    if tls.insecure || true {\n        client_crypto", ["C07"])
+m("c07-insecure-name-fallback", "src/connectors/http.rs", "                    if tls_insecure {\n                        ServerName::try_from(\"example.com\")", "                    if tls_insecure || true {\n                        ServerName::try_from(\"example.com\")", [])
+
 def run(name, file, old, new, props):
     path = os.path.join("/repo", file)
     src = open(path).read()
